@@ -28,3 +28,15 @@ package safehtml
 //@     invariant 0 <= i && i <= n && n == len(str)
 //@     invariant forall(k, 0, i, mask[str[k]])
 //@     decreases n - i
+
+//@ func IdentifierFromConstant(value stringConstant) (r Identifier)
+//@   serves C18
+//@   option uses C18.value_is_identifier
+//@   ensures spec: inlang(Ident, r.str)
+//@   ensures same: sameview(r.str, value)
+
+//@ func IdentifierFromConstantPrefix(prefix stringConstant, value string) (r Identifier)
+//@   serves C18
+//@   option uses C18.prefix_hyphen_value
+//@   ensures spec: inlang(Ident, r.str)
+//@   ensures layout: seqeq(r.str, cat(prefix, "-", value))
